@@ -44,6 +44,8 @@ def src(p, top=True):
     if k == 'throw': return f'(throw {S(p[1])})'
     if k in ('and', 'or', 'coalesce'): return f'({S(p[1])} {k} {S(p[2])})'
     if k == 'print': return f'print({S(p[1])})'
+    if k == 'opref': return p[1]
+    if k == 'chain': return '(' + ('_' if p[1] == ('slot',) else S(p[1])) + ''.join(f' {fn} {"_" if q == ("slot",) else S(q)}' for fn, q in p[2]) + ')'
     raise ValueError(p)
 
 # ------------------------------------------------------------------------------------------------ reference interpreter (symbolic)
@@ -150,6 +152,14 @@ class Ref:
         if k == 'lam': return Clo(p[1], p[2], sc)
         if k == 'call':
             f = s.ev(p[1], sc); args = [s.ev(q, sc) for q in p[2]]
+            if isinstance(f, tuple) and f[0] == 'section':
+                it = iter(args); vals = []
+                for v in f[1]:
+                    if isinstance(v, tuple) and v == ('slot',):
+                        try: v = next(it)
+                        except StopIteration: raise RErr('error')
+                    vals.append(v)
+                return s.reduce(vals, f[2])
             if not isinstance(f, Clo): raise RErr('error')
             fs = Scope(f.scope)                                # a fresh scope per call, child of the defining scope
             if len(args) > len(f.params): raise RErr('error')
@@ -177,7 +187,32 @@ class Ref:
             a = s.ev(p[1], sc); return a if a is not None else s.ev(p[2], sc)
         if k == 'print':
             s.out.append(s.ev(p[1], sc)); return None
+        if k == 'opref': return ('builtin', p[1])
+        if k == 'chain':
+            # operands and operator expressions are evaluated strictly left to right (e0, f1, e1, f2, e2, …), then reduced by precedence;
+            # with a `_` slot the result is a section: a function of the missing operand
+            vals = [('slot',) if p[1] == ('slot',) else s.ev(p[1], sc)]; ops = []
+            for fn, q in p[2]:
+                c = sc.find(fn)
+                if c is None: raise RErr('error')
+                fv = c[0]
+                if not (isinstance(fv, tuple) and fv[0] == 'builtin'): raise RErr('error')
+                ops.append(fv[1]); vals.append(('slot',) if q == ('slot',) else s.ev(q, sc))
+            if any(v == ('slot',) for v in vals if isinstance(v, tuple)): return ('section', vals, ops)
+            return s.reduce(vals, ops)
         raise ValueError(p)
+    def reduce(s, vals, ops):
+        PREC = {'+': 1, '-': 1, '*': 2}
+        vs, os_ = [vals[0]], []
+        def apply():
+            b = vs.pop(); a = vs.pop(); op = os_.pop()
+            if not (z3.is_expr(a) and z3.is_expr(b)): raise RErr('error')
+            vs.append({'+': a + b, '-': a - b, '*': a * b}[op])
+        for op, v in zip(ops, vals[1:]):
+            while os_ and PREC[os_[-1]] >= PREC[op]: apply()          # left-associative
+            os_.append(op); vs.append(v)
+        while os_: apply()
+        return vs[0]
 
 def ref_outcomes(prog, pre):
     """[(condition, outcome, printed)] — exhaustive and mutually exclusive; outcome = ('val', v) | ('throw', v) | ('error',)"""
@@ -279,6 +314,14 @@ def family():
           SEQ(('decl', 'a', N(0)), ('for', 'i', L123, ('for', 'k', L123, SEQ(('decl', 'b', ('foryield', 'j', L123, None, ('if', B('==', B('+', j, V('k')), V('x')), ('continue', 2), j))), ('opset', 'a', '+', N(1))))), a),
           # (a `break` in the same position is absorbed by the loop whose clause is being evaluated — undocumented either way, not part of the family)
           SEQ(('decl', 'a', N(0)), ('for', 'i', L123, SEQ(('for', 'j', ('if', B('==', i, V('x')), ('continue', 0), L123), ('opset', 'a', '+', N(1))), ('opset', 'a', '+', N(100)))), a)]
+    # operator chains through identifiers: operands and operator expressions are evaluated left to right, directly and as a `_` section
+    SLOT = ('slot',)
+    P += [SEQ(('decl', 'f', ('opref', '+')), ('chain', V('x'), [('f', SEQ(('set', 'f', ('opref', '-')), N(2))), ('f', V('y'))])),
+          SEQ(('decl', 'f', ('opref', '+')), ('decl', 's', ('chain', V('x'), [('f', SEQ(('set', 'f', ('opref', '-')), N(2))), ('f', SLOT)])), ('call', V('s'), [V('y')])),
+          SEQ(('decl', 'f', ('opref', '+')), ('decl', 's', ('chain', V('x'), [('f', SEQ(('set', 'f', ('opref', '*')), N(2))), ('f', SLOT)])), ('call', V('s'), [V('y')])),
+          SEQ(('decl', 'f', ('opref', '-')), ('decl', 'g', ('opref', '*')), ('chain', V('x'), [('f', V('y')), ('g', N(3))])),
+          SEQ(('decl', 'f', ('opref', '-')), ('decl', 's', ('chain', SLOT, [('f', V('x')), ('f', V('y'))])), ('call', V('s'), [N(100)])),
+          SEQ(('decl', 'f', ('opref', '+')), ('chain', ('print', N(1)) and SEQ(('print', N(1)), V('x')), [('f', SEQ(('print', N(2)), V('y'))), ('f', SEQ(('print', N(3)), N(1)))]))]
     # try / catch / throw
     P += [('try', ('throw', V('x')), 'e', B('+', V('e'), N(1))), ('try', V('x'), 'e', N(0)), ('try', V('q'), 'e', N(5)), ('throw', V('x')),
           ('try', ('try', ('throw', V('x')), 'e', ('throw', B('+', V('e'), N(1)))), 'e', B('*', V('e'), N(2))),
